@@ -376,3 +376,49 @@ def directory_saving(cx, prog):
     finally:
         import shutil
         shutil.rmtree(base, ignore_errors=True)
+
+
+@harness("C18", "spectrum_export",
+         quick=[dict(ext=".dat", units="1/cm"), dict(ext=".npy", units=None), dict(ext=".mat", units="eV")],
+         thorough=[dict(ext=e, units=u) for e in (".dat", ".npy", ".npz", ".mat") for u in (None, "1/cm", "eV", "THz")],
+         functions=["quantarhei/spectroscopy/absbase.py:AbsSpectrumBase.save_data",
+                    "quantarhei/spectroscopy/absbase.py:AbsSpectrumBase.load_data",
+                    F_D + ":DataSaveable._data_with_axis", F_D + ":DataSaveable._extract_data_with_axis",
+                    "quantarhei/core/frequency.py:FrequencyAxis.data"],
+         bound="an absorption spectrum on a 4-point frequency axis (symbolic start, step and data) exported with "
+               "save_data and imported with load_data into a second spectrum, both inside the same energy-units "
+               "context (or none): the frequency axis read in that context and the data are the same; I/O stubs as "
+               "in data_export (replay: real files)",
+         out="save in one context, load in another (the text file carries no units)")
+def spectrum_export(cx, ext, units):
+    import quantarhei as qr
+    N = 4
+    start = cx.real("wstart", 1.0, 2.0)
+    step = cx.real("wstep", 0.01, 0.1)
+    cx.assume(step > 0, "axis step > 0")
+    d = cx.real_array("d", N)
+    ctx = (lambda: qr.energy_units(units)) if units else contextlib.nullcontext
+    with qr.energy_units("int"):
+        ax = qr.FrequencyAxis(start, N, step)
+        sp = qr.AbsSpectrum(axis=ax, data=d.copy())
+        with cx.concrete():
+            ax2 = qr.FrequencyAxis(0.5, N, 0.25)
+        sp2 = qr.AbsSpectrum(axis=ax2, data=numpy.zeros(N))
+    label = "spectrum_roundtrip_%s" % ext.strip(".")
+    with file_io(cx) as tmp:
+        name = os.path.join(tmp, "s" + ext)
+        try:
+            with ctx(), contextlib.redirect_stdout(open(os.devnull, "w")):
+                want_axis = numpy.array(sp.axis.data).copy()
+                sp.save_data(name)
+                sp2.load_data(name)
+                got_axis = numpy.array(sp2.axis.data).copy()
+        except Exception as e:      # noqa: BLE001
+            cx.fail(label, "%s: %s" % (type(e).__name__, str(e)[:120]))
+            return
+    cx.prove(label + "_shape", numpy.asarray(sp2.data).shape == (N,) and got_axis.shape == (N,))
+    if numpy.asarray(sp2.data).shape != (N,) or got_axis.shape != (N,):
+        return
+    cx.prove_eq(label + "_data", sp2.data, d, tol=1e-12)
+    cx.prove_eq(label + "_axis", got_axis, want_axis, tol=1e-9)
+    cx.prove_eq("exported_spectrum_unchanged", sp.data, d)
